@@ -1,9 +1,9 @@
 From Coq Require Extraction.
 From Coq Require Import ExtrOcamlBasic.
 From OlaBase Require Import Bytes.
-From C07 Require Import Gen Model ModelNet2 ModelStream ModelMulti ModelHist ModelExt ModelMerge ModelSrc.
+From C07 Require Import Gen Model ModelNet2 ModelStream ModelMulti ModelHist ModelExt ModelMerge ModelSrc ModelEsp.
 Extraction Language OCaml.
 Extraction "model.ml" io_witness N.div_eucl rle_encode rle_decode
   shownet_build shownet_handle sandnet_build sandnet_handle espnet_build espnet_handle
   pathport_build pathport_handle expect_full expect_artnet expect_overlay len
-  artnet_build artnet_handle e131_build e131_handle tx_send tx_terminate e131_rx tx_send_map tx_send_r an_tx_step sandnet_handle_compressed tx_touch an_update e131_packet e131_track.
+  artnet_build artnet_handle e131_build e131_handle tx_send tx_terminate e131_rx tx_send_map tx_send_r an_tx_step sandnet_handle_compressed tx_touch an_update e131_packet e131_track esp_encode esp_decode espnet_build_rle espnet_handle_rle.
